@@ -24,13 +24,15 @@ ASSUMPTIONS = ['batch preprocessors are per-example (row-wise) functions',
                'the model abstracts a ClientDataset to (identity of its preprocessor object, its feature-name set, its rows)',
                'base iterables of RepeatableIterator produce the same finite item list whenever iter() is called on a builtin container']
 PARTIAL = ['shuffle_repeat_batch_federated_data / FederatedData.shuffled_clients are judged at property level only '
-           '(prefix sub-multiset bounds, per-epoch permutation, reproducibility); their finite core '
+           '(prefix sub-multiset bounds, per-epoch permutation, reproducibility for seeds incl. 0 / 1 / 2^32-1 over the in-memory, '
+           'subset and SQLite implementations, the two passes being separate creations with numpy\'s global RNG perturbed in between); their finite core '
            '(buffered_shuffle, buffered_shuffle_batch_client_datasets) is modelled and proved',
            '"non-trivial order" is a statistical statement checked on seeds, not a theorem']
 CASE_TIMEOUT = 20
 
 M = '__mask__'
 AFFS = [(1, 0), (2, 1), (3, 2)]
+IMPLS = ['mem', 'subset', 'sqlite']
 
 
 # --------------------------------------------------------------------------
@@ -166,18 +168,36 @@ def generate(tier, rng):
       for calls in sorted({0, 1, n, n + 1, n + 2, 2 * n + 2, 3 * n + 4, 4 * n + 5}):
         yield {'kind': 'repeat', 'base': base, 'n': n, 'calls': calls}
   # -- property-level: shuffle_repeat_batch_federated_data, shuffled_clients
-  for _ in range(12 if tier == 'quick' else 60):
+  # seed 0 is a seed (not "unseeded"); both passes of the reproducibility clause are separate
+  # creations with numpy's global RNG perturbed in between; all three FederatedData implementations
+  EDGE = [0, 1, 2 ** 32 - 1]
+  srb = []
+  for impl in IMPLS:
+    for seed in EDGE:
+      srb.append({'kind': 'srbfd', 'sizes': [2, 0, 3, 1], 'bs': 2, 'cB': 2, 'eB': 3, 'seed': seed, 'take': 6, 'impl': impl})
+  for j in range(12 if tier == 'quick' else 60):
     nc = rng.randrange(1, 7)
     sizes = [rng.choice([0, 1, 2, 3, 5]) for _ in range(nc)]
     if sum(sizes) == 0:
       sizes[rng.randrange(nc)] = rng.randrange(1, 4)
-    yield {'kind': 'srbfd', 'sizes': sizes, 'bs': rng.choice([1, 2, 3, 4]), 'cB': rng.choice([1, 2, nc, nc + 3]),
-           'eB': rng.choice([1, 2, 3, sum(sizes), 2 * sum(sizes) + 1]), 'seed': rng.randrange(1 << 30),
-           'take': rng.randrange(1, 25)}
-  for _ in range(12 if tier == 'quick' else 60):
+    srb.append({'kind': 'srbfd', 'sizes': sizes, 'bs': rng.choice([1, 2, 3, 4]), 'cB': rng.choice([1, 2, nc, nc + 3]),
+                'eB': rng.choice([1, 2, 3, sum(sizes), 2 * sum(sizes) + 1]),
+                'seed': rng.choice(EDGE + [rng.randrange(1 << 32), rng.randrange(1 << 30)]),
+                'take': rng.randrange(1, 25), 'impl': IMPLS[j % 3]})
+  for c in srb:
+    yield c
+  sc = []
+  for impl in IMPLS:
+    for seed in EDGE:
+      for nc, B in ((6, 3), (4, 7)):
+        sc.append({'kind': 'shufclients', 'nc': nc, 'B': B, 'seed': seed, 'epochs': 2, 'impl': impl})
+  for j in range(12 if tier == 'quick' else 60):
     nc = rng.randrange(1, 9)
-    yield {'kind': 'shufclients', 'nc': nc, 'B': rng.choice([1, 2, 3, nc, nc + 1, nc + 4]), 'seed': rng.randrange(1 << 30),
-           'epochs': rng.randrange(1, 4)}
+    sc.append({'kind': 'shufclients', 'nc': nc, 'B': rng.choice([1, 2, 3, nc, nc + 1, nc + 4]),
+               'seed': rng.choice(EDGE + [rng.randrange(1 << 32), rng.randrange(1 << 30)]),
+               'epochs': rng.randrange(1, 4), 'impl': IMPLS[j % 3]})
+  for c in sc:
+    yield c
 
 
 # --------------------------------------------------------------------------
@@ -226,6 +246,34 @@ def _datasets(case):
     out.append(fedjax.ClientDataset(_examples(base, n, f, j % 2 == 1), get(p)))
     base += n
   return out
+
+
+def _fd_impl(data, impl):
+  """(FederatedData over `data` in the requested implementation, cleanup)."""
+  import fedjax
+  if impl == 'subset':
+    from fedjax.core import federated_data as fdm
+    extra = dict(data)
+    extra[b'~not-in-subset'] = _examples(10 ** 6, 2, 0, False)
+    return fdm.SubsetFederatedData(fedjax.InMemoryFederatedData(extra), sorted(data)), lambda: None
+  if impl == 'sqlite':
+    import os
+    import shutil
+    import tempfile
+    from fedjax.core import sqlite_federated_data as sq
+    d = tempfile.mkdtemp(prefix='verif_c15_')
+    path = os.path.join(d, 'fd.sqlite')
+    with sq.SQLiteFederatedDataBuilder(path) as b:
+      b.add_many([(cid, data[cid]) for cid in sorted(data)])
+    return sq.SQLiteFederatedData.new(path), lambda: shutil.rmtree(d, ignore_errors=True)
+  return fedjax.InMemoryFederatedData(data), lambda: None
+
+
+def _perturb(k):
+  """Moves numpy's process-global RNG elsewhere, so that a stream drawing from the global
+  state instead of its own seeded RandomState is not reproducible between two creations."""
+  np.random.seed(70001 + 104729 * k)
+  np.random.rand(2 + k)
 
 
 def _iterable(dsl, how):
@@ -357,33 +405,41 @@ def run(case):
       except StopIteration:
         trace.append(None)
     return {'trace': trace, 'iter_is_self': iter(it) is it}
-  if kind == 'srbfd':
-    sizes = case['sizes']
-    base, data = 0, {}
-    for j, s in enumerate(sizes):
-      data[b'k%02d' % j] = _examples(base, s, 0, False)
-      base += s
-    fd = fedjax.InMemoryFederatedData(data)
+  if kind in ('srbfd', 'shufclients'):
+    saved = np.random.get_state()
+    cleanup = lambda: None
+    try:
+      if kind == 'srbfd':
+        sizes = case['sizes']
+        base, data = 0, {}
+        for j, s in enumerate(sizes):
+          data[b'k%02d' % j] = _examples(base, s, 0, False)
+          base += s
+        fd, cleanup = _fd_impl(data, case.get('impl', 'mem'))
 
-    def take(seed):
-      gen = fedjax.shuffle_repeat_batch_federated_data(fd, batch_size=case['bs'], client_buffer_size=case['cB'],
-                                                       example_buffer_size=case['eB'], seed=seed)
-      return [np.asarray(b['x']).tolist() for b in itertools.islice(gen, case['take'])]
-    o1 = take(case['seed'])
-    return {'batches': o1, 'same': o1 == take(case['seed']), 'other': take(case['seed'] + 1)}
-  if kind == 'shufclients':
-    nc = case['nc']
-    data = {b'id%02d' % j + b'\x00' * (j % 2): _examples(100 * j, 1 + j % 3, 0, False) for j in range(nc)}
-    fd = fedjax.InMemoryFederatedData(data)
-    ids = sorted(data)
+        def take(seed, k):
+          _perturb(k)
+          gen = fedjax.shuffle_repeat_batch_federated_data(fd, batch_size=case['bs'], client_buffer_size=case['cB'],
+                                                           example_buffer_size=case['eB'], seed=seed)
+          return [np.asarray(b['x']).tolist() for b in itertools.islice(gen, case['take'])]
+        o1 = take(case['seed'], 1)
+        return {'batches': o1, 'same': o1 == take(case['seed'], 2), 'other': take((case['seed'] + 1) % (1 << 32), 3)}
+      nc = case['nc']
+      data = {b'id%02d' % j + b'\x00' * (j % 2): _examples(100 * j, 1 + j % 3, 0, False) for j in range(nc)}
+      fd, cleanup = _fd_impl(data, case.get('impl', 'mem'))
+      ids = sorted(data)
 
-    def take(seed):
-      out = []
-      for cid, ds in itertools.islice(fd.shuffled_clients(case['B'], seed), nc * case['epochs']):
-        out.append([ids.index(cid) if cid in ids else -1, int(ds.raw_examples['x'][0]) // 100])
-      return out
-    o1 = take(case['seed'])
-    return {'stream': o1, 'same': o1 == take(case['seed'])}
+      def take(seed, k):
+        _perturb(k)
+        out = []
+        for cid, ds in itertools.islice(fd.shuffled_clients(case['B'], seed), nc * case['epochs']):
+          out.append([ids.index(cid) if cid in ids else -1, int(np.asarray(ds.raw_examples['x'])[0]) // 100])
+        return out
+      o1 = take(case['seed'], 1)
+      return {'stream': o1, 'same': o1 == take(case['seed'], 2)}
+    finally:
+      np.random.set_state(saved)
+      cleanup()
   raise ValueError('unknown case kind ' + kind)
 
 
@@ -630,6 +686,9 @@ def describe(case, obs):
     d['buffer_vs_stream'] = 'B=1' if case['B'] == 1 else 'B<n' if case['B'] < n else 'B=n' if case['B'] == n else 'B>n'
     if kind == 'shufbatch':
       d['outcome'] = obs['err'] or 'ok'
+  elif kind in ('srbfd', 'shufclients'):
+    d['impl'] = case.get('impl', 'mem')
+    d['stream_seed'] = {0: '0', 1: '1', 2 ** 32 - 1: '2^32-1'}.get(case['seed'], 'other')
   elif kind == 'repeat':
     d['base'] = ['list', 'tuple', 'dict', 'str', 'bytes', 'generator', 'list_iterator', 'range', 'map'][case['base']]
     d['passes'] = min(case['calls'] // (case['n'] + 1), 4)
